@@ -287,26 +287,38 @@ json.dump(out, open(sys.argv[2], "w"), default=str)
 '''
 
 
+def make_stub_env(tmp):
+    """Scratch directory with stand-ins for the third-party packages absent from this sandbox
+    (flatbuffers, libsnark) and a failing `qapgen` executable; returns (stubs_dir, env)."""
+    import os
+    stubs = os.path.join(tmp, "stubs")
+    os.makedirs(os.path.join(stubs, "flatbuffers"))
+    open(os.path.join(stubs, "flatbuffers", "__init__.py"), "w").write("")
+    open(os.path.join(stubs, "flatbuffers", "compat.py"), "w").write("def import_numpy():\n    return None\n")
+    os.makedirs(os.path.join(stubs, "libsnark"))
+    open(os.path.join(stubs, "libsnark", "__init__.py"), "w").write("")
+    open(os.path.join(stubs, "libsnark", "alt_bn128.py"), "w").write(
+        "class _A:\n    def __init__(s,*a,**k): pass\n    def __call__(s,*a,**k): return _A()\n    def __getattr__(s,n):\n        if n.startswith('__'): raise AttributeError(n)\n        return _A()\n"
+        "import sys\nclass _M(type(sys)):\n    def __getattr__(s,n):\n        if n.startswith('__'): raise AttributeError(n)\n        return _A()\nsys.modules[__name__].__class__ = _M\n")
+    bindir = os.path.join(tmp, "bin")
+    os.makedirs(bindir)
+    qg = os.path.join(bindir, "qapgen")
+    open(qg, "w").write("#!/bin/sh\nexit 1\n")
+    os.chmod(qg, 0o755)
+    env = dict(os.environ, PATH=bindir + os.pathsep + os.environ.get("PATH", ""), PYSNARK_KEYDIR=tmp)
+    env.pop("PYSNARK_BACKEND", None)
+    return stubs, env
+
+
 def _selection_replay(self, ob, cfg):
     import json, os, subprocess, sys, tempfile, shutil
     from pyvc.replay import REPO
     model = ob.get("model") or {}
     tmp = tempfile.mkdtemp(prefix="pyvc_sel_")
     try:
-        stubs = os.path.join(tmp, "stubs")
-        os.makedirs(os.path.join(stubs, "flatbuffers"))
-        open(os.path.join(stubs, "flatbuffers", "__init__.py"), "w").write("")
-        open(os.path.join(stubs, "flatbuffers", "compat.py"), "w").write("def import_numpy():\n    return None\n")
-        os.makedirs(os.path.join(stubs, "libsnark"))
-        open(os.path.join(stubs, "libsnark", "__init__.py"), "w").write("")
-        open(os.path.join(stubs, "libsnark", "alt_bn128.py"), "w").write(
-            "class _A:\n    def __init__(s,*a,**k): pass\n    def __call__(s,*a,**k): return _A()\n    def __getattr__(s,n):\n        if n.startswith('__'): raise AttributeError(n)\n        return _A()\n"
-            "import sys\nclass _M(type(sys)):\n    def __getattr__(s,n):\n        if n.startswith('__'): raise AttributeError(n)\n        return _A()\nsys.modules[__name__].__class__ = _M\n")
-        bindir = os.path.join(tmp, "bin")
-        os.makedirs(bindir)
-        qg = os.path.join(bindir, "qapgen")
-        open(qg, "w").write("#!/bin/sh\nexit 1\n")
-        os.chmod(qg, 0o755)
+        stubs, env = make_stub_env(tmp)
+        if False:
+            pass
         truth = lambda k: str(model.get(k, "False")) == "True"
         pre = [i for i, n in enumerate(NAMES) if truth("k_pre_" + n)]
         pre = [i for i in pre if not any(DERIVED.get(j) == i and j in pre for j in pre)]      # most-derived modules
@@ -319,8 +331,6 @@ def _selection_replay(self, ob, cfg):
         json.dump(req, open(rq, "w"))
         script = os.path.join(tmp, "probe.py")
         open(script, "w").write(_PROBE)
-        env = dict(os.environ, PATH=bindir + os.pathsep + os.environ.get("PATH", ""), PYSNARK_KEYDIR=tmp)
-        env.pop("PYSNARK_BACKEND", None)
         pr = subprocess.run([sys.executable, script, rq, outp], cwd=tmp, capture_output=True, text=True, timeout=60, env=env)
         res = json.load(open(outp)) if os.path.exists(outp) else dict(exception="no output", stderr=pr.stderr[-800:])
         res["environment"] = {k: req[k] for k in ("env", "preimport", "blocked", "ipython")}
